@@ -68,7 +68,8 @@ RULE = (
     'sc/mitm/key-distribution masks may change in between; answers of the second pairing positive, negative or '
     'a rejection; both pairings and the final reconnection phase are judged; always non-trivial; distinct by '
     'both rounds. oob: at least one side has an OOB configuration (own context only / valid data of the peer / '
-    'data of a foreign device; legacy TK equal or different) x sc on each side x everything of a pair case. '
+    'data of a foreign device; legacy TK equal or different), stratified over the 13 state pairs x sc on each '
+    'side, x everything of a pair case. '
     'pkbit: passkey entry where one typist enters the passkey with exactly bit k flipped, k = 0..19 x '
     '{legacy, SC} x roles {initiator displays, responder displays, both type}; quick: every third cell, '
     'thorough: all 120 in every shard.'
@@ -1483,24 +1484,20 @@ def again_case_strategy(between: str, first: str):
     }).map(build)
 
 
-OOB_STATE = st.sampled_from(['peer', 'peer', 'peer', 'own', 'bad', 'none'])
+# (central, peripheral) OOB states: at least one side has a configuration; valid data about the peer
+# presupposes that the peer has an OOB context
+OOB_STATE_PAIRS = [(a, b) for a in OOB_SIDE_STATES for b in OOB_SIDE_STATES
+                   if (a, b) not in (('none', 'none'), ('peer', 'none'), ('none', 'peer'))]
 
 
-def oob_case_strategy(sc_c: bool, sc_p: bool):
+def oob_case_strategy(sc_c: bool, sc_p: bool, oc: str, op: str):
     """End-to-end pairings in which at least one side has an OOB configuration: own context only, valid
     data of the peer, or data of a foreign device; legacy TKs equal or different."""
 
     def build(d):
         c = dict(d['c'], sc=sc_c)
         p = dict(d['p'], sc=sc_p)
-        oob = {'c': d['oc'], 'p': d['op'], 'tk': d['tk']}
-        # valid data about the peer presupposes that the peer has an OOB context
-        if oob['c'] == 'none' and oob['p'] == 'none':
-            oob['c'], oob['p'] = 'peer', 'own'
-        if oob['c'] == 'peer' and oob['p'] == 'none':
-            oob['p'] = 'own'
-        if oob['p'] == 'peer' and oob['c'] == 'none':
-            oob['c'] = 'own'
+        oob = {'c': oc, 'p': op, 'tk': d['tk']}
         fault = None
         if d['with_fault']:
             fault = list(d['fault'])
@@ -1517,7 +1514,7 @@ def oob_case_strategy(sc_c: bool, sc_p: bool):
     })
     ans = st.one_of(answers(False), answers(False), answers(False), answers(False), answers(True))
     return st.fixed_dictionaries({
-        'c': side, 'p': side, 'oc': OOB_STATE, 'op': OOB_STATE, 'tk': st.sampled_from(['same', 'same', 'differ']),
+        'c': side, 'p': side, 'tk': st.sampled_from(['same', 'same', 'differ']),
         'start': st.sampled_from(['pair', 'pair', 'secreq']), 'ans_c': ans, 'ans_p': ans, 'pk': PASSKEYS,
         'delays_c': DELAYS, 'delays_p': DELAYS, 'with_fault': st.sampled_from([False, False, False, False, True]),
         'fault': fault_strategy(sc_c and sc_p), 'prebond': st.sampled_from([False, False, True]),
@@ -1598,9 +1595,10 @@ def run(ctx) -> None:
     # OOB association end to end
     for sc_c in (False, True):
         for sc_p in (False, True):
-            ctx.hyp(f'oob/{"s" if sc_c else "l"}{"s" if sc_p else "l"}', lambda case: run_pair_case(ctx, case),
-                    oob_case_strategy(sc_c, sc_p),
-                    max_examples=ctx.n(45, 6400) if sc_c and sc_p else ctx.n(25, 3200))
+            for oc, op in OOB_STATE_PAIRS:
+                ctx.hyp(f'oob/{"s" if sc_c else "l"}{"s" if sc_p else "l"}/{oc}/{op}',
+                        lambda case: run_pair_case(ctx, case), oob_case_strategy(sc_c, sc_p, oc, op),
+                        max_examples=ctx.n(3, 6400 // 13) if sc_c and sc_p else ctx.n(2, 3200 // 13))
 
     # wrong passkeys that differ from the right one in a single bit (enumerated; every shard runs all of them)
     n_pkbit = 0
@@ -1626,7 +1624,7 @@ def run(ctx) -> None:
         ('again:reconnect_swapped:after_failed', 4), ('again:reconnect_swapped:after_paired', 4),
         ('again:outcome:paired', 30), ('again:outcome:failed', 3), ('again:paired_over_bond', 10),
         ('again:failed_over_bond', 3),
-        ('oob', 80), ('oob:sc', 15), ('oob:legacy', 10), ('oob:sc:one_sided', 5), ('expect:oob_mismatch', 8),
+        ('oob', 80), ('oob:sc', 20), ('oob:legacy', 10), ('oob:sc:one_sided', 10), ('expect:oob_mismatch', 8),
         ('cause:oob_mismatch', 5), ('oob:flags_as_configured', 60), ('method:oob', 30),
         ('expect:passkey_one_bit', ctx.pick(36, 110)), ('pkbit:high', ctx.pick(6, 20)),
         ('pkbit:legacy:i', 4), ('pkbit:legacy:r', 4), ('pkbit:legacy:both_input', 4),
